@@ -65,9 +65,43 @@ struct ByteStreamReadBuffer {
 }
 
 impl ByteStreamReadBuffer {
-    spec fn wf(&self) -> bool { self.offset <= 8 * self.buffer@.len() && self.buffer@.len() <= 0x10_0000 }
+    spec fn wf(&self) -> bool { self.offset <= 8 * self.buffer@.len() && self.buffer@.len() <= 0x10_0000 && self.tmp@.len() == 0 }
     spec fn rest(&self) -> Seq<bool> {
         Seq::new((8 * self.buffer@.len() - self.offset) as nat, |i: int| bit_at(self.buffer@, self.offset + i))
+    }
+
+    /// Append a fresh slice of bytes to the end of the stream
+    fn append(&mut self, data: &[u8])
+        requires old(self).wf(), old(self).buffer@.len() - old(self).offset / 8 + data@.len() <= 0x10_0000
+        ensures final(self).wf(),
+            final(self).rest() =~= old(self).rest() + Seq::new((8 * data@.len()) as nat, |i: int| bit_at(data@, i)),
+            final(self).offset < 8,
+    {
+        let consumed_bytes = self.offset / 8;
+        let remaining_bytes = self.buffer.len() - consumed_bytes;
+        self.offset -= consumed_bytes * 8;
+        self.tmp.reserve(remaining_bytes + data.len());
+        self.tmp.extend_from_slice(&self.buffer[consumed_bytes..]);
+        self.tmp.extend_from_slice(data);
+        self.buffer.clear();
+        std::mem::swap(&mut self.buffer, &mut self.tmp);
+        proof {
+            let ob = old(self).buffer@; let nb = self.buffer@; let c = consumed_bytes as int;
+            assert(nb =~= ob.subrange(c, ob.len() as int) + data@);
+            assert forall|i: int| 0 <= i < 8 * nb.len() implies #[trigger] bit_at(nb, i) ==
+                (if i < 8 * (ob.len() - c) { bit_at(ob, i + 8 * c) } else { bit_at(data@, i - 8 * (ob.len() - c)) }) by {
+                if i < 8 * (ob.len() - c) {
+                    assert(nb[i / 8] == ob[i / 8 + c]);
+                    assert((i + 8 * c) / 8 == i / 8 + c);
+                    assert((i + 8 * c) % 8 == i % 8);
+                } else {
+                    let r = ob.len() - c;
+                    assert(nb[i / 8] == data@[i / 8 - r]);
+                    assert((i - 8 * r) / 8 == i / 8 - r);
+                    assert((i - 8 * r) % 8 == i % 8);
+                }
+            }
+        }
     }
 
     fn extract(&mut self, bits: usize) -> (r: Option<u64>)
